@@ -66,7 +66,64 @@ static int g_defaults[3][64]; static int g_haveDefaults[3];
 
 static void init(void) { fill_text(g_in, sizeof g_in, 1); g_frameLen = ZSTD_compress(g_frame, sizeof g_frame, g_in, 300, 1); }
 
+/* --mode 1: which dictionary a context holds, as a function of the calls made on it.  Reference model: {none, sticky A, sticky B (CDict / DDict), one-shot prefix};
+ * load / ref replace it, a completed frame uses up a prefix, a parameter reset (alone or with the session) drops everything, a session reset keeps the sticky
+ * ones.  After every history of <= 4 operations a probe frame is compressed (or decoded) and must equal what a fresh context gives with the model's dictionary. */
+enum { DM_NONE, DM_A, DM_B, DM_PREFIX };
+static u8 g_dA[700], g_dB[700], g_probe[900], g_ref[4][2048]; static size_t g_refLen[4]; static ZSTD_CDict* g_cdB; static ZSTD_DDict* g_ddB;
+static size_t probe_compress(ZSTD_CCtx* c, u8* dst, size_t cap) { ZSTD_CCtx_setParameter(c, ZSTD_c_compressionLevel, 3); return ZSTD_compress2(c, dst, cap, g_probe, sizeof g_probe); }
+static void dict_init(void) {
+    fill_text(g_dA, sizeof g_dA, 61); fill_noise(g_dB, sizeof g_dB, 62); memcpy(g_probe, g_dA + 100, 400); memcpy(g_probe + 400, g_dB + 200, 400); fill_text(g_probe + 800, 100, 63);
+    g_cdB = ZSTD_createCDict(g_dB, sizeof g_dB, 3); g_ddB = ZSTD_createDDict(g_dB, sizeof g_dB);
+    for (int m = 0; m < 4; m++) { ZSTD_CCtx* c = ZSTD_createCCtx(); if (m == DM_A) ZSTD_CCtx_loadDictionary(c, g_dA, sizeof g_dA); if (m == DM_B) ZSTD_CCtx_refCDict(c, g_cdB); if (m == DM_PREFIX) ZSTD_CCtx_refPrefix(c, g_dA, sizeof g_dA); g_refLen[m] = probe_compress(c, g_ref[m], sizeof g_ref[m]); ZSTD_freeCCtx(c); }
+}
+static void body_dicts(void) {
+    static const char* ON[] = {"loadDictionary(A)", "refCDict(B)", "refPrefix(A)", "frame", "reset(session)", "reset(parameters)", "reset(both)", "loadDictionary(NULL)", "failingFrame"};
+    if (!g_cdB) dict_init();
+    int side = vx_choose(2), len = vx_choose(5), model = DM_NONE, skip = 0; char hist[200] = ""; size_t ho = 0;
+    ZSTD_CCtx* c = ZSTD_createCCtx(); ZSTD_DCtx* d = ZSTD_createDCtx(); u8 tmp[2048], out[1024];
+    for (int i = 0; i < len; i++) {
+        int op = vx_choose(9); ho += snprintf(hist + ho, sizeof hist - ho, "%s ", ON[op]); vx_label("%s dictionary state: %s", side ? "DCtx" : "CCtx", hist);
+        if (!side) switch (op) {
+            case 0: ZSTD_CCtx_loadDictionary(c, g_dA, sizeof g_dA); model = DM_A; break;
+            case 1: ZSTD_CCtx_refCDict(c, g_cdB); model = DM_B; break;
+            case 2: ZSTD_CCtx_refPrefix(c, g_dA, sizeof g_dA); model = DM_PREFIX; break;
+            case 3: { size_t r = ZSTD_compress2(c, tmp, sizeof tmp, g_probe, 300); if (ZSTD_isError(r)) skip = 1; if (model == DM_PREFIX) model = DM_NONE; break; }
+            case 4: ZSTD_CCtx_reset(c, ZSTD_reset_session_only); if (model == DM_PREFIX) skip = 1; break;      /* what a session reset does to a pending prefix is not specified */
+            case 5: ZSTD_CCtx_reset(c, ZSTD_reset_parameters); model = DM_NONE; break;
+            case 6: ZSTD_CCtx_reset(c, ZSTD_reset_session_and_parameters); model = DM_NONE; break;
+            case 7: ZSTD_CCtx_loadDictionary(c, NULL, 0); model = DM_NONE; break;
+            default: { size_t r = ZSTD_compress2(c, tmp, 1, g_probe, 300); (void)r; ZSTD_CCtx_reset(c, ZSTD_reset_session_only); if (model == DM_PREFIX) skip = 1; break; }
+        } else switch (op) {
+            case 0: ZSTD_DCtx_loadDictionary(d, g_dA, sizeof g_dA); model = DM_A; break;
+            case 1: ZSTD_DCtx_refDDict(d, g_ddB); model = DM_B; break;
+            case 2: ZSTD_DCtx_refPrefix(d, g_dA, sizeof g_dA); model = DM_PREFIX; break;
+            case 3: { size_t r = ZSTD_decompressDCtx(d, out, sizeof out, g_ref[DM_NONE], g_refLen[DM_NONE]); if (ZSTD_isError(r)) skip = 1; if (model == DM_PREFIX) model = DM_NONE; break; }
+            case 4: ZSTD_DCtx_reset(d, ZSTD_reset_session_only); if (model == DM_PREFIX) skip = 1; break;
+            case 5: ZSTD_DCtx_reset(d, ZSTD_reset_parameters); model = DM_NONE; break;
+            case 6: ZSTD_DCtx_reset(d, ZSTD_reset_session_and_parameters); model = DM_NONE; break;
+            case 7: ZSTD_DCtx_loadDictionary(d, NULL, 0); model = DM_NONE; break;
+            default: { size_t r = ZSTD_decompressDCtx(d, out, 1, g_ref[DM_NONE], g_refLen[DM_NONE]); (void)r; ZSTD_DCtx_reset(d, ZSTD_reset_session_only); if (model == DM_PREFIX) skip = 1; break; }
+        }
+    }
+    if (!skip) {
+        static const char* MN[] = {"no dictionary", "dictionary A", "dictionary B", "prefix A"};
+        if (!side) { size_t r = probe_compress(c, tmp, sizeof tmp);
+            if (ZSTD_isError(r)) vx_fail("after [%s] the probe frame fails: %s", hist, ZSTD_getErrorName(r));
+            else if (r != g_refLen[model] || memcmp(tmp, g_ref[model], r)) { int like = -1; for (int m = 0; m < 4; m++) if (r == g_refLen[m] && !memcmp(tmp, g_ref[m], r)) like = m; vx_fail("after [%s] the context should hold %s but compresses as with %s", hist, MN[model], like < 0 ? "something else" : MN[like]); }
+        } else {
+            /* the frame made with the model's dictionary decodes to the probe; with no dictionary held, a frame that needs dictionary A does not */
+            size_t r = ZSTD_decompressDCtx(d, out, sizeof out, g_ref[model], g_refLen[model]);
+            if (ZSTD_isError(r) || r != sizeof g_probe || memcmp(out, g_probe, r)) vx_fail("after [%s] the decoder should hold %s but fails to decode a frame made with it: %s", hist, MN[model], ZSTD_isError(r) ? ZSTD_getErrorName(r) : "content differs");
+            else if (model == DM_NONE) { r = ZSTD_decompressDCtx(d, out, sizeof out, g_ref[DM_A], g_refLen[DM_A]); if (!ZSTD_isError(r) && r == sizeof g_probe && !memcmp(out, g_probe, r)) vx_fail("after [%s] the decoder should hold no dictionary but still decodes a frame that needs dictionary A", hist); }
+        }
+    }
+    vx_obs(hist, ho); vx_obs_u64((uint64_t)model + (uint64_t)side * 8); if (len) vx_nontrivial(); vx_stat_add("dict_histories", 1);
+    ZSTD_freeCCtx(c); ZSTD_freeDCtx(d);
+}
+
 static void body(void) {
+    if ((int)vx_opt_int("--mode", 0) == 1) { body_dicts(); return; }
     obj_t o; memset(&o, 0, sizeof o);
     o.kind = vx_choose(3);
     int pi = vx_choose(o.kind == OBJ_DCTX ? NDP : NCP);
